@@ -305,7 +305,9 @@ theorem evalImpl_comp_val {rec : Rec} {root : Node} {w : World} {rs : Bool} {f :
     split at h
     · cases h
     · split at h
-      · cases h
+      · split at h
+        · split at h <;> cases h
+        · cases h
       · rename_i sig hsig
         split at h
         · cases h
@@ -323,7 +325,9 @@ theorem evalImpl_comp_val {rec : Rec} {root : Node} {w : World} {rs : Bool} {f :
     split at h
     · cases h
     · split at h
-      · cases h
+      · split at h
+        · split at h <;> cases h
+        · cases h
       · rename_i sig hsig
         split at h
         · cases h
